@@ -432,9 +432,17 @@ func genNoHaltHist(r *Rng, i int, tier string) []string {
 	if nv >= 4 && r.Chance(1, 3) {
 		jailAt = r.Intn(nops)
 	}
+	// double-sign variant (1 in 4): evidence against the reporter-validator v1 (slashed 5 %, jailed for ever)
+	dsAt := -1
+	if nv >= 3 && jailAt < 0 && r.Chance(1, 4) {
+		dsAt = r.Intn(nops)
+	}
 	for k := 0; k < nops; k++ {
 		if k == jailAt {
 			downtime(add, "v1")
+		}
+		if k == dsAt {
+			add("blk 1000 dsign=v1")
 		}
 		acct := fmt.Sprintf("a%d", r.Intn(na))
 		rp := reporters[r.Intn(len(reporters))]
